@@ -661,6 +661,11 @@ pub fn body() {
     // ---- epilogue: faults have stopped ----
     sched::set_phase(Phase::Final);
     log(Item::Phase("epilogue".into()));
+    if sc.property == "C15" {
+        // every caller has returned; the consumer may still be far behind (or was withheld until
+        // now): "at any time" each hit is buffered, delivered or counted as dropped
+        log(Item::Obs(observe(&cache, "readers-quiet")));
+    }
     // every acknowledgement ever handed out must resolve (C12 / C13 liveness): awaiting one that
     // never resolves leaves this task blocked forever, which shuttle reports as a deadlock
     let observed: std::collections::HashSet<AckId> = RUN.with(|r| {
